@@ -1,53 +1,1264 @@
-// temporary probe (will be replaced by the real driver)
-use bytes::{Bytes, BytesMut};
-use cascette_cache::pool::*;
-use cascette_cache::zerocopy::*;
-use cascette_cache::memory::*;
-use cascette_protocol::optimized::*;
-fn main() {
-    // reserve bug
-    let mut p = ZeroCopyBufferPool::new();
-    let b = p.get_buffer(1500);
-    println!("zcp get(1500) cap={}", b.capacity());
-    p.return_buffer(b);
-    let b = p.get_buffer(2000);
-    println!("zcp get(2000) cap={} len={}", b.capacity(), b.len());
-    deallocate_thread_local(BytesMut::with_capacity(100));
-    let b = allocate_thread_local(1000);
-    println!("tl alloc(1000) cap={}", b.capacity());
-    let mut bp = ByteBufferPool::new();
-    let v = bp.get_buffer(100);
-    println!("bbp get(100) cap={}", v.capacity());
-    bp.return_buffer(v);
-    let v = bp.get_buffer(1000);
-    println!("bbp get(1000) cap={}", v.capacity());
-    // refcount
-    let e = ZeroCopyEntry::new(Bytes::from_static(b"hello"));
-    let c = e.clone();
-    println!("rc after clone {} unique {}", e.ref_count(), e.is_unique());
-    drop(c);
-    println!("rc after drop clone {}", e.ref_count());
-    let c2 = e.clone(); drop(c2);
-    println!("rc after 2nd drop {}", e.ref_count());
-    let r = std::panic::catch_unwind(|| { let e = ZeroCopyEntry::new(Bytes::from_static(b"hello")); e.slice(3..1).is_some() });
-    println!("slice(3..1) -> {:?}", r.is_ok());
-    let mut zc = ZeroCopyCache::new(4);
-    zc.put(1, Bytes::from_static(b"ab"));
-    zc.put(2, Bytes::from_static(b"abcdefgh"));
-    println!("zcc mem {} len {} max 4", zc.memory_usage(), zc.len());
-    let rt = tokio::runtime::Builder::new_current_thread().enable_all().build().unwrap();
-    rt.block_on(async {
-        let sp = SizedMemoryPool::new();
-        for t in [ContentTypeHint::Config, ContentTypeHint::Root, ContentTypeHint::Generic] {
-            let b = sp.allocate_for_type(t, 100).await.unwrap();
-            sp.deallocate(b).await.unwrap();
-            let _b = sp.allocate_for_type(t, 100).await.unwrap();
-            let st = sp.get_stats().await.unwrap();
-            println!("{:?} reuses {:?} misses {:?}", t, st.reuses_by_type.get(&t), st.misses_by_type.get(&t));
+//! X06 driver: memory pools, zero-copy buffers and streaming helpers of cascette-cache
+//! (pool.rs, memory.rs, zerocopy.rs, streaming.rs) and the small pools of cascette-protocol (optimized.rs).
+//!
+//! usage: drv_pools --programs <file|-> --out <file|->
+//!
+//! A program is {"kind": K, "cfg": {...}, "ops": [...]}; K selects the component.  Buffers / handles live in numbered
+//! slots `s` chosen by the program.  Bytes are JSON arrays of numbers; a count of -1 stands for usize::MAX.
+//!
+//!  "ngdp"   NgdpMemoryPool: alloc{s,n} fill{s,m} free{s} foreign{c,m} allocb{n} warm clear check;
+//!           every event carries the books: "st" = per size class [allocations, bytes_allocated, reuses, pool_misses,
+//!           pool_size, max_pool_size, avg_allocation_size], "tot" = total_stats() [allocations, bytes, reuses, misses, avg]
+//!  "tl"     allocate_thread_local / deallocate_thread_local / clear_thread_local_pool: alloc fill free foreign clear check
+//!  "bbp"    cascette-protocol ByteBufferPool, cfg.api = "obj" (own object) | "tls" (get_buffer/return_buffer) |
+//!           "raii" (PooledBuffer): get{s,n} fill{s,m} ret{s} into{s} foreign{c,m} check   (run on a fresh thread)
+//!  "zcp"    ZeroCopyBufferPool: get fill ret foreign clear check; "st" = [allocations, hits, misses, hit_rate ppm]
+//!  "sized"  SizedMemoryPool: alloc{s,t,n} fill free{s} foreign{c} warm clear check; "st" = per content type
+//!           [allocations, bytes, reuses, misses, avg], "tot" = [total_allocations, total_bytes, total_reuses, reuse_rate ppm]
+//!  "zc"     ZeroCopyEntry / ZeroCopySlice / ZeroCopyReader:
+//!           mk{s,d} fromm{s,d} clone{s,t} drop{s} info{s} slice{s,t,a,b} append{s,t,x} expired{s,ttl} reader{s,t} newr{t,d}
+//!           seek{t,p} rexact{t,n} rrem{t} peek{t,n} read{t,n} aread{t,n}
+//!  "zcc"    ZeroCopyCache(cfg.max): put{k,d} get{k,s} gslice{k,a,b} greader{k} remove{k} contains{k} clear compact{ttl}
+//!           drop{s} hot{min} probe; every event carries len, mem, "st" = [gets, hits, puts, zero_copy_ops, hit_rate ppm]
+//!  "stream" StreamingProcessor(cfg.chunk, cfg.maxbuf, cfg.val = "noop"|"ngdp"|"off"): proc{d,reads,exp} recon{chunks}
+//!           vchunks{chunks} cstream{size,marks,ask} sstats{cp,tc,bp,cv}
+//!  "str"    intern{x,api:"global"|"obj"} key{p,e} ehash{e}
+//!  "conc"   real threads on one shared pool, cfg = {target:"ngdp"|"sized"|"intern", mode:"lin"|"hammer", threads, per,
+//!           pre, seed}: ONE event {"op":"crun"|"hammer"|"cintern", ...} with the whole stamped history
+//!  "bg"     BackgroundMemoryManager on a paused tokio clock: start shutdown submit{task,..} tune press{resp} adv{ms}
+//!
+//! Events: {"op":"new","kind":..,"cfg":..,"res":{"ok":true}} starts a run, then one event per operation (the operation's
+//! fields + "seq" + "res" + books).  Nothing here decides anything: spec/trace/T_Pools.tla (TLC) judges the events.
+use bytes::{BufMut, Bytes, BytesMut};
+use cascette_cache::memory::{
+    BackgroundConfig, BackgroundMemoryManager, ContentTypeHint, MemoryPool, OptimizationTask, PressureResponse, SizedMemoryPool,
+};
+use cascette_cache::pool::{NgdpMemoryPool, NgdpSizeClass, allocate_thread_local, clear_thread_local_pool, deallocate_thread_local};
+use cascette_cache::streaming::{ContentStream, StreamingConfig, StreamingProcessor, StreamingStats};
+use cascette_cache::validation::{NgdpValidationHooks, NoOpValidationHooks, ValidationHooks};
+use cascette_cache::zerocopy::{ZeroCopyBufferPool, ZeroCopyCache, ZeroCopyEntry, ZeroCopyReader, ZeroCopySlice};
+use cascette_crypto::ContentKey;
+use cascette_protocol::optimized::{self as popt, ByteBufferPool, EndpointHashes, PooledBuffer, StringInterner};
+use serde_json::{Value, json};
+use std::collections::{BTreeMap, HashMap};
+use std::hash::{Hash, Hasher};
+use std::sync::atomic::{AtomicU64, Ordering};
+use std::sync::{Arc, Barrier};
+use std::time::Duration;
+use verif_harness::*;
+
+// --------------------------------------------------------------------------- small helpers
+fn small(x: u64) -> Value {
+    if x <= (1 << 30) { json!(x) } else { json!(-1) }
+}
+fn usz(v: &Value) -> usize {
+    match v.as_i64() {
+        Some(x) if x < 0 => usize::MAX,
+        Some(x) => x as usize,
+        None => panic!("driver: number expected, got {v}"),
+    }
+}
+fn u(v: &Value) -> u64 {
+    v.as_u64().unwrap_or_else(|| panic!("driver: unsigned number expected, got {v}"))
+}
+fn bytes_of(v: &Value) -> Vec<u8> {
+    v.as_array().unwrap_or_else(|| panic!("driver: byte list expected, got {v}")).iter().map(|x| u(x) as u8).collect()
+}
+fn jb(b: &[u8]) -> Value {
+    Value::Array(b.iter().map(|x| json!(*x)).collect())
+}
+fn head8(b: &[u8]) -> Value {
+    jb(&b[..b.len().min(8)])
+}
+fn ppm(x: f64) -> Value {
+    json!((x * 1_000_000.0).round() as i64)
+}
+fn pat(s: u64, i: usize) -> u8 {
+    ((s * 37 + (i as u64) * 11) % 251) as u8
+}
+fn st(v: &Value) -> &str {
+    v.as_str().unwrap_or_else(|| panic!("driver: string expected, got {v}"))
+}
+/// run one operation: panics become {"outcome":"panic"}
+fn call(out: &Emit, op: &Value, f: impl FnOnce() -> Value) -> Value {
+    out.begin(op);
+    match guarded(f) {
+        Ok(v) => v,
+        Err(m) => outcome_panic(&m),
+    }
+}
+fn begin_run(out: &Emit, kind: &str, cfg: &Value) {
+    out.ev(json!({"op": "new", "kind": kind, "cfg": cfg, "res": {"ok": true}}));
+}
+fn ops_of(prog: &Value) -> &Vec<Value> {
+    prog["ops"].as_array().expect("driver: ops")
+}
+fn fill_bm(b: &mut BytesMut, s: u64, m: usize) {
+    let from = b.len();
+    for j in 0..m {
+        b.put_u8(pat(s, from + j));
+    }
+}
+fn fill_vec(b: &mut Vec<u8>, s: u64, m: usize) {
+    let from = b.len();
+    for j in 0..m {
+        b.push(pat(s, from + j));
+    }
+}
+fn dirty_bm(c: usize, m: usize) -> BytesMut {
+    let mut b = BytesMut::with_capacity(c);
+    for _ in 0..m {
+        b.put_u8(0xEE);
+    }
+    b
+}
+fn held_bm(slots: &BTreeMap<u64, BytesMut>) -> Value {
+    Value::Array(slots.iter().map(|(s, b)| json!({"s": s, "len": b.len(), "d": head8(b)})).collect())
+}
+
+// --------------------------------------------------------------------------- kind "ngdp"
+const CLASSES: [NgdpSizeClass; 4] = [NgdpSizeClass::Small, NgdpSizeClass::Medium, NgdpSizeClass::Large, NgdpSizeClass::Huge];
+fn ngdp_books(p: &NgdpMemoryPool) -> (Value, Value) {
+    let per: Vec<Value> = CLASSES
+        .iter()
+        .map(|c| {
+            let s = p.size_class_stats(*c);
+            json!([small(s.allocations), small(s.bytes_allocated), small(s.reuses), small(s.pool_misses), small(s.pool_size as u64),
+                   small(s.max_pool_size as u64), small(s.avg_allocation_size as u64)])
+        })
+        .collect();
+    let t = p.total_stats();
+    (Value::Array(per), json!([small(t.allocations), small(t.bytes_allocated), small(t.reuses), small(t.pool_misses), small(t.avg_allocation_size as u64)]))
+}
+fn run_ngdp(prog: &Value, cfg: &Value, out: &Emit) {
+    let pool = NgdpMemoryPool::new();
+    let mut slots: BTreeMap<u64, BytesMut> = BTreeMap::new();
+    begin_run(out, "ngdp", cfg);
+    let mut seq = 0u64;
+    for op in ops_of(prog) {
+        let name = st(&op["op"]);
+        let mut ev = op.clone();
+        seq += 1;
+        ev["seq"] = json!(seq);
+        ev["res"] = call(out, op, || match name {
+            "alloc" => {
+                let b = pool.allocate(usz(&op["n"]));
+                let r = json!({"cap": b.capacity(), "len": b.len()});
+                slots.insert(u(&op["s"]), b);
+                r
+            }
+            "fill" => {
+                let s = u(&op["s"]);
+                let b = slots.get_mut(&s).expect("driver: slot");
+                fill_bm(b, s, usz(&op["m"]));
+                json!({"cap": b.capacity(), "len": b.len()})
+            }
+            "free" => {
+                let b = slots.remove(&u(&op["s"])).expect("driver: slot");
+                let r = json!({"cap": b.capacity(), "len": b.len(), "d": head8(&b)});
+                pool.deallocate(b);
+                r
+            }
+            "foreign" => {
+                let b = dirty_bm(usz(&op["c"]), op.get("m").map(usz).unwrap_or(0));
+                let r = json!({"cap": b.capacity(), "len": b.len()});
+                pool.deallocate(b);
+                r
+            }
+            "allocb" => {
+                let b = pool.allocate_bytes(usz(&op["n"]));
+                json!({"len": b.len()})
+            }
+            "warm" => {
+                pool.warm_up();
+                json!({"ok": true})
+            }
+            "clear" => {
+                pool.clear();
+                json!({"ok": true})
+            }
+            "check" => json!({"held": held_bm(&slots)}),
+            other => panic!("driver: unknown ngdp op {other}"),
+        });
+        match guarded(|| ngdp_books(&pool)) {
+            Ok((s, t)) => {
+                ev["st"] = s;
+                ev["tot"] = t;
+            }
+            Err(m) => ev["obs_err"] = json!(m),
+        }
+        out.ev(ev);
+    }
+}
+
+// --------------------------------------------------------------------------- kind "tl"
+fn run_tl(prog: &Value, cfg: &Value, out: &Emit) {
+    clear_thread_local_pool();
+    let mut slots: BTreeMap<u64, BytesMut> = BTreeMap::new();
+    begin_run(out, "tl", cfg);
+    let mut seq = 0u64;
+    for op in ops_of(prog) {
+        let name = st(&op["op"]);
+        let mut ev = op.clone();
+        seq += 1;
+        ev["seq"] = json!(seq);
+        ev["res"] = call(out, op, || match name {
+            "alloc" => {
+                let b = allocate_thread_local(usz(&op["n"]));
+                let r = json!({"cap": b.capacity(), "len": b.len()});
+                slots.insert(u(&op["s"]), b);
+                r
+            }
+            "fill" => {
+                let s = u(&op["s"]);
+                let b = slots.get_mut(&s).expect("driver: slot");
+                fill_bm(b, s, usz(&op["m"]));
+                json!({"cap": b.capacity(), "len": b.len()})
+            }
+            "free" => {
+                let b = slots.remove(&u(&op["s"])).expect("driver: slot");
+                let r = json!({"cap": b.capacity(), "len": b.len(), "d": head8(&b)});
+                deallocate_thread_local(b);
+                r
+            }
+            "foreign" => {
+                let b = dirty_bm(usz(&op["c"]), op.get("m").map(usz).unwrap_or(0));
+                let r = json!({"cap": b.capacity(), "len": b.len()});
+                deallocate_thread_local(b);
+                r
+            }
+            "clear" => {
+                clear_thread_local_pool();
+                json!({"ok": true})
+            }
+            "check" => json!({"held": held_bm(&slots)}),
+            other => panic!("driver: unknown tl op {other}"),
+        });
+        out.ev(ev);
+    }
+    clear_thread_local_pool();
+}
+
+// --------------------------------------------------------------------------- kind "bbp"
+enum PB {
+    V(Vec<u8>),
+    P(PooledBuffer),
+}
+impl PB {
+    fn vec(&self) -> &Vec<u8> {
+        match self {
+            PB::V(v) => v,
+            PB::P(p) => p.as_slice(),
+        }
+    }
+}
+fn run_bbp_body(prog: &Value, cfg: &Value, out: &Emit) {
+    let api = st(&cfg["api"]).to_string();
+    let mut pool = ByteBufferPool::new();
+    let mut slots: BTreeMap<u64, PB> = BTreeMap::new();
+    begin_run(out, "bbp", cfg);
+    let mut seq = 0u64;
+    for op in ops_of(prog) {
+        let name = st(&op["op"]);
+        let mut ev = op.clone();
+        seq += 1;
+        ev["seq"] = json!(seq);
+        ev["res"] = call(out, op, || match name {
+            "get" => {
+                let n = usz(&op["n"]);
+                let b = match api.as_str() {
+                    "obj" => PB::V(pool.get_buffer(n)),
+                    "tls" => PB::V(popt::get_buffer(n)),
+                    _ => PB::P(PooledBuffer::new(n)),
+                };
+                let r = json!({"cap": b.vec().capacity(), "len": b.vec().len()});
+                slots.insert(u(&op["s"]), b);
+                r
+            }
+            "fill" => {
+                let s = u(&op["s"]);
+                let m = usz(&op["m"]);
+                match slots.get_mut(&s).expect("driver: slot") {
+                    PB::V(v) => fill_vec(v, s, m),
+                    PB::P(p) => fill_vec(p.as_mut_slice(), s, m), // also exercised through DerefMut below
+                }
+                let b = slots.get(&s).expect("driver: slot");
+                json!({"cap": b.vec().capacity(), "len": b.vec().len()})
+            }
+            "ret" => {
+                let b = slots.remove(&u(&op["s"])).expect("driver: slot");
+                let r = json!({"cap": b.vec().capacity(), "len": b.vec().len(), "d": head8(b.vec())});
+                match b {
+                    PB::V(v) => {
+                        if api == "obj" {
+                            pool.return_buffer(v);
+                        } else {
+                            popt::return_buffer(v);
+                        }
+                    }
+                    PB::P(p) => drop(p),
+                }
+                r
+            }
+            "into" => {
+                let s = u(&op["s"]);
+                let b = slots.remove(&s).expect("driver: slot");
+                let v = match b {
+                    PB::P(p) => p.into_vec(),
+                    PB::V(v) => v,
+                };
+                let r = json!({"cap": v.capacity(), "len": v.len(), "d": head8(&v)});
+                slots.insert(s, PB::V(v));
+                r
+            }
+            "foreign" => {
+                let mut v: Vec<u8> = Vec::with_capacity(usz(&op["c"]));
+                for _ in 0..op.get("m").map(usz).unwrap_or(0) {
+                    v.push(0xEE);
+                }
+                let r = json!({"cap": v.capacity(), "len": v.len()});
+                if api == "obj" {
+                    pool.return_buffer(v);
+                } else {
+                    popt::return_buffer(v);
+                }
+                r
+            }
+            "check" => json!({"held": Value::Array(slots.iter().map(|(s, b)| json!({"s": s, "len": b.vec().len(), "d": head8(b.vec())})).collect())}),
+            other => panic!("driver: unknown bbp op {other}"),
+        });
+        out.ev(ev);
+    }
+}
+fn run_bbp(prog: &Value, cfg: &Value, out: &Emit) {
+    // the thread-local pool of cascette-protocol cannot be cleared: every program gets a fresh thread
+    std::thread::scope(|sc| {
+        let h = std::thread::Builder::new().spawn_scoped(sc, || run_bbp_body(prog, cfg, out)).expect("driver: spawn");
+        if h.join().is_err() {
+            panic!("driver: bbp program thread died");
         }
     });
-    let np = NgdpMemoryPool::new();
-    let b = np.allocate_bytes(100);
-    println!("allocate_bytes(100).len() = {}", b.len());
-    println!("{}", format_cache_key("a:b", "c") == format_cache_key("a", "b:c"));
+}
+
+// --------------------------------------------------------------------------- kind "zcp"
+fn run_zcp(prog: &Value, cfg: &Value, out: &Emit) {
+    let mut pool = ZeroCopyBufferPool::new();
+    let mut slots: BTreeMap<u64, BytesMut> = BTreeMap::new();
+    begin_run(out, "zcp", cfg);
+    let mut seq = 0u64;
+    for op in ops_of(prog) {
+        let name = st(&op["op"]);
+        let mut ev = op.clone();
+        seq += 1;
+        ev["seq"] = json!(seq);
+        ev["res"] = call(out, op, || match name {
+            "get" => {
+                let b = pool.get_buffer(usz(&op["n"]));
+                let r = json!({"cap": b.capacity(), "len": b.len()});
+                slots.insert(u(&op["s"]), b);
+                r
+            }
+            "fill" => {
+                let s = u(&op["s"]);
+                let b = slots.get_mut(&s).expect("driver: slot");
+                fill_bm(b, s, usz(&op["m"]));
+                json!({"cap": b.capacity(), "len": b.len()})
+            }
+            "ret" => {
+                let b = slots.remove(&u(&op["s"])).expect("driver: slot");
+                let r = json!({"cap": b.capacity(), "len": b.len(), "d": head8(&b)});
+                pool.return_buffer(b);
+                r
+            }
+            "foreign" => {
+                let b = dirty_bm(usz(&op["c"]), op.get("m").map(usz).unwrap_or(0));
+                let r = json!({"cap": b.capacity(), "len": b.len()});
+                pool.return_buffer(b);
+                r
+            }
+            "clear" => {
+                pool.clear();
+                json!({"ok": true})
+            }
+            "check" => json!({"held": held_bm(&slots)}),
+            other => panic!("driver: unknown zcp op {other}"),
+        });
+        match guarded(|| {
+            let s = pool.stats();
+            json!([small(s.allocations), small(s.hits), small(s.misses), ppm(pool.hit_rate())])
+        }) {
+            Ok(s) => ev["st"] = s,
+            Err(m) => ev["obs_err"] = json!(m),
+        }
+        out.ev(ev);
+    }
+}
+
+// --------------------------------------------------------------------------- kind "sized"
+const CTYPES: [(&str, ContentTypeHint); 8] = [
+    ("config", ContentTypeHint::Config),
+    ("encoding", ContentTypeHint::Encoding),
+    ("archive", ContentTypeHint::Archive),
+    ("root", ContentTypeHint::Root),
+    ("install", ContentTypeHint::Install),
+    ("download", ContentTypeHint::Download),
+    ("blte", ContentTypeHint::Blte),
+    ("generic", ContentTypeHint::Generic),
+];
+fn ctype(name: &str) -> ContentTypeHint {
+    CTYPES.iter().find(|(n, _)| *n == name).unwrap_or_else(|| panic!("driver: content type {name}")).1
+}
+fn sized_books(rt: &tokio::runtime::Runtime, p: &SizedMemoryPool) -> (Value, Value) {
+    let s = rt.block_on(p.get_stats()).expect("driver: get_stats");
+    let per: Vec<Value> = CTYPES
+        .iter()
+        .map(|(_, t)| {
+            json!([small(*s.allocations_by_type.get(t).unwrap_or(&0)), small(*s.bytes_by_type.get(t).unwrap_or(&0)),
+                   small(*s.reuses_by_type.get(t).unwrap_or(&0)), small(*s.misses_by_type.get(t).unwrap_or(&0)),
+                   small(*s.avg_size_by_type.get(t).unwrap_or(&0) as u64)])
+        })
+        .collect();
+    (Value::Array(per), json!([small(s.total_allocations()), small(s.total_bytes()), small(s.total_reuses()), ppm(s.reuse_rate())]))
+}
+fn run_sized(prog: &Value, cfg: &Value, out: &Emit) {
+    let rt = rt();
+    let pool = SizedMemoryPool::new();
+    let mut slots: BTreeMap<u64, BytesMut> = BTreeMap::new();
+    begin_run(out, "sized", cfg);
+    let mut seq = 0u64;
+    for op in ops_of(prog) {
+        let name = st(&op["op"]);
+        let mut ev = op.clone();
+        seq += 1;
+        ev["seq"] = json!(seq);
+        ev["res"] = call(out, op, || match name {
+            "alloc" => match rt.block_on(pool.allocate_for_type(ctype(st(&op["t"])), usz(&op["n"]))) {
+                Ok(b) => {
+                    let r = json!({"cap": b.capacity(), "len": b.len()});
+                    slots.insert(u(&op["s"]), b);
+                    r
+                }
+                Err(e) => json!({"err": e.to_string()}),
+            },
+            "fill" => {
+                let s = u(&op["s"]);
+                let b = slots.get_mut(&s).expect("driver: slot");
+                fill_bm(b, s, usz(&op["m"]));
+                json!({"cap": b.capacity(), "len": b.len()})
+            }
+            "free" => {
+                let b = slots.remove(&u(&op["s"])).expect("driver: slot");
+                let r = json!({"cap": b.capacity(), "len": b.len(), "d": head8(&b)});
+                match rt.block_on(pool.deallocate(b)) {
+                    Ok(()) => r,
+                    Err(e) => json!({"err": e.to_string()}),
+                }
+            }
+            "foreign" => {
+                let b = dirty_bm(usz(&op["c"]), op.get("m").map(usz).unwrap_or(0));
+                let r = json!({"cap": b.capacity(), "len": b.len()});
+                match rt.block_on(pool.deallocate(b)) {
+                    Ok(()) => r,
+                    Err(e) => json!({"err": e.to_string()}),
+                }
+            }
+            "warm" => match rt.block_on(pool.warm_up()) {
+                Ok(()) => json!({"ok": true}),
+                Err(e) => json!({"err": e.to_string()}),
+            },
+            "clear" => match rt.block_on(pool.clear()) {
+                Ok(()) => json!({"ok": true}),
+                Err(e) => json!({"err": e.to_string()}),
+            },
+            "check" => json!({"held": held_bm(&slots)}),
+            other => panic!("driver: unknown sized op {other}"),
+        });
+        match guarded(|| sized_books(&rt, &pool)) {
+            Ok((s, t)) => {
+                ev["st"] = s;
+                ev["tot"] = t;
+            }
+            Err(m) => ev["obs_err"] = json!(m),
+        }
+        out.ev(ev);
+    }
+}
+
+// --------------------------------------------------------------------------- kind "zc"
+enum ZS {
+    E(ZeroCopyEntry),
+    S(ZeroCopySlice),
+    R(ZeroCopyReader),
+}
+fn ent_info(e: &ZeroCopyEntry) -> Value {
+    let dr: &[u8] = e;
+    let da: &[u8] = e.as_ref();
+    json!({"d": jb(e.as_slice()), "d2": jb(&e.data()), "dr": jb(dr), "da": jb(da), "n": e.size(), "orig": e.original_size(),
+           "rc": small(e.ref_count() as u64), "uniq": e.is_unique()})
+}
+fn sl_info(s: &ZeroCopySlice) -> Value {
+    let dr: &[u8] = s;
+    let da: &[u8] = s.as_ref();
+    let r = s.range();
+    json!({"some": true, "d": jb(s.as_slice()), "d2": jb(&s.data()), "dr": jb(dr), "da": jb(da), "n": s.size(), "range": [r.start, r.end]})
+}
+fn rd_books(r: &ZeroCopyReader) -> Value {
+    json!({"pos": r.position(), "rem": r.remaining(), "empty": r.is_empty()})
+}
+fn io_err(e: &std::io::Error) -> Value {
+    let k = match e.kind() {
+        std::io::ErrorKind::InvalidInput => "input",
+        std::io::ErrorKind::UnexpectedEof => "eof",
+        _ => "other",
+    };
+    json!({"err": k})
+}
+fn range_of(op: &Value) -> std::ops::Range<usize> {
+    usz(&op["a"])..usz(&op["b"])
+}
+fn run_zc(prog: &Value, cfg: &Value, out: &Emit) {
+    let rt = rt();
+    let mut slots: BTreeMap<u64, ZS> = BTreeMap::new();
+    begin_run(out, "zc", cfg);
+    let mut seq = 0u64;
+    for op in ops_of(prog) {
+        let name = st(&op["op"]);
+        let mut ev = op.clone();
+        seq += 1;
+        ev["seq"] = json!(seq);
+        ev["res"] = call(out, op, || match name {
+            "mk" => {
+                let e = ZeroCopyEntry::new(Bytes::from(bytes_of(&op["d"])));
+                let r = ent_info(&e);
+                slots.insert(u(&op["s"]), ZS::E(e));
+                r
+            }
+            "fromm" => {
+                let e = ZeroCopyEntry::from_bytes_mut(BytesMut::from(&bytes_of(&op["d"])[..]));
+                let r = ent_info(&e);
+                slots.insert(u(&op["s"]), ZS::E(e));
+                r
+            }
+            "clone" => {
+                let c = match slots.get(&u(&op["s"])) {
+                    Some(ZS::E(e)) => ZS::E(e.clone()),
+                    Some(ZS::S(s)) => ZS::S(s.clone()),
+                    _ => panic!("driver: clone of a reader / empty slot"),
+                };
+                let r = match &c {
+                    ZS::E(e) => ent_info(e),
+                    ZS::S(s) => sl_info(s),
+                    ZS::R(_) => unreachable!(),
+                };
+                slots.insert(u(&op["t"]), c);
+                r
+            }
+            "drop" => {
+                slots.remove(&u(&op["s"])).expect("driver: slot");
+                json!({"ok": true})
+            }
+            "info" => match slots.get(&u(&op["s"])) {
+                Some(ZS::E(e)) => ent_info(e),
+                Some(ZS::S(s)) => sl_info(s),
+                _ => panic!("driver: info of a reader / empty slot"),
+            },
+            "slice" => {
+                let r = match slots.get(&u(&op["s"])) {
+                    Some(ZS::E(e)) => e.slice(range_of(op)),
+                    _ => panic!("driver: entry slot expected"),
+                };
+                match r {
+                    Some(s) => {
+                        let i = sl_info(&s);
+                        slots.insert(u(&op["t"]), ZS::S(s));
+                        i
+                    }
+                    None => json!({"none": true}),
+                }
+            }
+            "append" => {
+                let n = match slots.get(&u(&op["s"])) {
+                    Some(ZS::E(e)) => e.append(&bytes_of(&op["x"])),
+                    _ => panic!("driver: entry slot expected"),
+                };
+                let r = ent_info(&n);
+                slots.insert(u(&op["t"]), ZS::E(n));
+                r
+            }
+            "expired" => {
+                let zero = st(&op["ttl"]) == "zero";
+                if zero {
+                    std::thread::sleep(Duration::from_millis(2));
+                }
+                match slots.get(&u(&op["s"])) {
+                    Some(ZS::E(e)) => json!({"b": e.is_expired(if zero { Duration::ZERO } else { Duration::from_secs(3600) })}),
+                    _ => panic!("driver: entry slot expected"),
+                }
+            }
+            "reader" => {
+                let r = match slots.get(&u(&op["s"])) {
+                    Some(ZS::E(e)) => e.reader(),
+                    _ => panic!("driver: entry slot expected"),
+                };
+                let b = rd_books(&r);
+                slots.insert(u(&op["t"]), ZS::R(r));
+                b
+            }
+            "newr" => {
+                let r = ZeroCopyReader::new(Bytes::from(bytes_of(&op["d"])));
+                let b = rd_books(&r);
+                slots.insert(u(&op["t"]), ZS::R(r));
+                b
+            }
+            "seek" | "rexact" | "rrem" | "peek" | "read" | "aread" => {
+                let r = match slots.get_mut(&u(&op["t"])) {
+                    Some(ZS::R(r)) => r,
+                    _ => panic!("driver: reader slot expected"),
+                };
+                let mut v = match name {
+                    "seek" => match r.seek(usz(&op["p"])) {
+                        Ok(()) => json!({"ok": true}),
+                        Err(e) => io_err(&e),
+                    },
+                    "rexact" => match r.read_exact_bytes(usz(&op["n"])) {
+                        Ok(b) => json!({"d": jb(&b)}),
+                        Err(e) => io_err(&e),
+                    },
+                    "rrem" => json!({"d": jb(&r.read_remaining())}),
+                    "peek" => match r.peek(usz(&op["n"])) {
+                        Some(b) => json!({"d": jb(&b)}),
+                        None => json!({"none": true}),
+                    },
+                    "read" => {
+                        let mut buf = vec![0xEEu8; usz(&op["n"])];
+                        match std::io::Read::read(r, &mut buf) {
+                            Ok(k) => json!({"d": jb(&buf[..k]), "k": k}),
+                            Err(e) => io_err(&e),
+                        }
+                    }
+                    _ => {
+                        let mut buf = vec![0xEEu8; usz(&op["n"])];
+                        match rt.block_on(tokio::io::AsyncReadExt::read(r, &mut buf)) {
+                            Ok(k) => json!({"d": jb(&buf[..k]), "k": k}),
+                            Err(e) => io_err(&e),
+                        }
+                    }
+                };
+                let b = rd_books(r);
+                v["pos"] = b["pos"].clone();
+                v["rem"] = b["rem"].clone();
+                v["empty"] = b["empty"].clone();
+                v
+            }
+            other => panic!("driver: unknown zc op {other}"),
+        });
+        out.ev(ev);
+    }
+}
+
+// --------------------------------------------------------------------------- kind "zcc"
+fn run_zcc(prog: &Value, cfg: &Value, out: &Emit) {
+    let mut cache = ZeroCopyCache::new(usz(&cfg["max"]));
+    let mut held: BTreeMap<u64, ZeroCopyEntry> = BTreeMap::new();
+    let keys: Vec<u64> = prog["keys"].as_array().map(|a| a.iter().map(u).collect()).unwrap_or_default();
+    out.ev(json!({"op": "new", "kind": "zcc", "cfg": cfg, "keys": keys, "res": {"ok": true}}));
+    let mut seq = 0u64;
+    let get_res = |e: Option<&ZeroCopyEntry>| match e {
+        Some(e) => json!({"hit": true, "n": e.size(), "h": jb(e.as_slice())}),
+        None => json!({"hit": false}),
+    };
+    for op in ops_of(prog) {
+        let name = st(&op["op"]);
+        let mut ev = op.clone();
+        seq += 1;
+        ev["seq"] = json!(seq);
+        ev["res"] = call(out, op, || match name {
+            "put" => {
+                cache.put(u(&op["k"]), Bytes::from(bytes_of(&op["d"])));
+                json!({"ok": true})
+            }
+            "get" => {
+                let e = cache.get(u(&op["k"]));
+                let r = get_res(e.as_ref());
+                if let Some(e) = e {
+                    held.insert(u(&op["s"]), e); // kept alive until drop{s}
+                }
+                r
+            }
+            "gslice" => match cache.get_slice(u(&op["k"]), range_of(op)) {
+                Some(s) => sl_info(&s),
+                None => json!({"none": true}),
+            },
+            "greader" => match cache.get_reader(u(&op["k"])) {
+                Some(mut r) => json!({"some": true, "d": jb(&r.read_remaining())}),
+                None => json!({"none": true}),
+            },
+            "remove" => json!({"b": cache.remove(u(&op["k"]))}),
+            "contains" => json!({"b": cache.contains(u(&op["k"]))}),
+            "clear" => {
+                cache.clear();
+                json!({"ok": true})
+            }
+            "compact" => {
+                let zero = st(&op["ttl"]) == "zero";
+                if zero {
+                    std::thread::sleep(Duration::from_millis(2));
+                }
+                cache.compact(if zero { Duration::ZERO } else { Duration::from_secs(3600) });
+                json!({"ok": true})
+            }
+            "drop" => {
+                held.remove(&u(&op["s"]));
+                json!({"ok": true})
+            }
+            "hot" => {
+                let mut l = cache.get_highly_referenced_entries(usz(&op["min"]));
+                l.sort_unstable();
+                json!({"list": Value::Array(l.iter().map(|(k, rc)| json!([k, small(*rc as u64)])).collect())})
+            }
+            "probe" => {
+                // one get per key of the universe (the handles are dropped at once) - counted like any other get
+                let mut vals = serde_json::Map::new();
+                let mut rcs = serde_json::Map::new();
+                for k in &keys {
+                    let e = cache.get(*k);
+                    vals.insert(k.to_string(), get_res(e.as_ref()));
+                    if let Some(e) = &e {
+                        rcs.insert(k.to_string(), small(e.ref_count() as u64));
+                    }
+                }
+                json!({"vals": vals, "rcs": rcs})
+            }
+            other => panic!("driver: unknown zcc op {other}"),
+        });
+        match guarded(|| {
+            let s = cache.stats();
+            (cache.len(), cache.memory_usage(), cache.is_empty(),
+             json!([small(s.gets), small(s.hits), small(s.puts), small(s.zero_copy_ops), ppm(cache.hit_rate())]))
+        }) {
+            Ok((l, m, e, s)) => {
+                ev["len"] = json!(l);
+                ev["mem"] = small(m as u64);
+                ev["empty"] = json!(e);
+                ev["st"] = s;
+            }
+            Err(m) => ev["obs_err"] = json!(m),
+        }
+        out.ev(ev);
+    }
+}
+
+// --------------------------------------------------------------------------- kind "stream"
+/// delivers the stream in the scripted portions (then whatever is asked for)
+struct Scripted {
+    data: Vec<u8>,
+    pos: usize,
+    reads: std::collections::VecDeque<usize>,
+    calls: usize,
+}
+impl tokio::io::AsyncRead for Scripted {
+    fn poll_read(mut self: std::pin::Pin<&mut Self>, _cx: &mut std::task::Context<'_>, buf: &mut tokio::io::ReadBuf<'_>) -> std::task::Poll<std::io::Result<()>> {
+        self.calls += 1;
+        let want = self.reads.pop_front().unwrap_or(usize::MAX);
+        let k = buf.remaining().min(want).min(self.data.len() - self.pos);
+        let (a, b) = (self.pos, self.pos + k);
+        buf.put_slice(&self.data[a..b]);
+        self.pos = b;
+        std::task::Poll::Ready(Ok(()))
+    }
+}
+fn chunks_of(v: &Value) -> Vec<Bytes> {
+    v.as_array().expect("driver: chunks").iter().map(|c| Bytes::from(bytes_of(c))).collect()
+}
+fn opt_u64(v: &Value) -> Option<u64> {
+    v.as_array().expect("driver: option (list)").first().map(u)
+}
+fn stream_ops<V: ValidationHooks>(prog: &Value, cfg: &Value, out: &Emit, hooks: V, validate: bool) {
+    let rt = rt();
+    let scfg = StreamingConfig { chunk_size: usz(&cfg["chunk"]), max_buffered_chunks: usz(&cfg["maxbuf"]), validate_chunks: validate, min_chunk_size: 1 };
+    let proc_ = StreamingProcessor::new(hooks, scfg.clone());
+    begin_run(out, "stream", cfg);
+    let mut seq = 0u64;
+    for op in ops_of(prog) {
+        let name = st(&op["op"]);
+        let mut ev = op.clone();
+        seq += 1;
+        ev["seq"] = json!(seq);
+        ev["res"] = call(out, op, || match name {
+            "proc" => {
+                let d = bytes_of(&op["d"]);
+                let reads = op["reads"].as_array().expect("driver: reads").iter().map(usz).collect();
+                let rd = Scripted { data: d.clone(), pos: 0, reads, calls: 0 };
+                match rt.block_on(proc_.process_stream(ContentKey::from_data(&d), rd, opt_u64(&op["exp"]))) {
+                    Ok(ch) => json!({"chunks": Value::Array(ch.iter().map(|c| jb(c)).collect())}),
+                    Err(e) => json!({"err": e.to_string().chars().take(120).collect::<String>()}),
+                }
+            }
+            "recon" => json!({"d": jb(&proc_.reconstruct_content(&chunks_of(&op["chunks"])))}),
+            "vchunks" => match rt.block_on(proc_.validate_chunks(&chunks_of(&op["chunks"]))) {
+                Ok(rs) => json!({"valid": Value::Array(rs.iter().map(|r| json!(r.is_valid)).collect())}),
+                Err(e) => json!({"err": e.to_string().chars().take(120).collect::<String>()}),
+            },
+            "cstream" => {
+                let mut s = ContentStream::new(ContentKey::from_data(b"x06"), opt_u64(&op["size"]), scfg.clone());
+                for m in op["marks"].as_array().expect("driver: marks") {
+                    s.mark_chunk_validated(u(m) as u32);
+                }
+                let stats = proc_.get_stats(&s);
+                json!({"total": s.total_chunks().map(|t| vec![t]).unwrap_or_default(),
+                       "prog": s.progress().map(|p| vec![(f64::from(p) * 1e6).round() as i64]).unwrap_or_default(),
+                       "complete": s.is_complete(), "cur": s.current_chunk_index(), "bytes": s.bytes_processed(),
+                       "validated": Value::Array(op["ask"].as_array().expect("driver: ask").iter().map(|i| json!(s.is_chunk_validated(u(i) as u32))).collect()),
+                       "gs": {"cp": stats.chunks_processed, "tc": stats.total_chunks.map(|t| vec![t]).unwrap_or_default(), "bp": stats.bytes_processed,
+                              "cv": stats.chunks_validated, "vr": (f64::from(stats.validation_rate) * 1e6).round() as i64,
+                              "pr": (f64::from(stats.progress) * 1e6).round() as i64}})
+            }
+            "sstats" => {
+                let s = StreamingStats { chunks_processed: u(&op["cp"]) as u32, total_chunks: opt_u64(&op["tc"]).map(|t| t as u32), bytes_processed: u(&op["bp"]),
+                                         chunks_validated: u(&op["cv"]) as u32, validation_rate: 0.0, progress: 0.0 };
+                json!({"all": s.all_chunks_validated(), "avg": s.average_chunk_size().map(|x| vec![x]).unwrap_or_default(),
+                       "est": s.estimated_total_size().map(|x| vec![x]).unwrap_or_default()})
+            }
+            other => panic!("driver: unknown stream op {other}"),
+        });
+        out.ev(ev);
+    }
+}
+fn run_stream(prog: &Value, cfg: &Value, out: &Emit) {
+    match st(&cfg["val"]) {
+        "noop" => stream_ops(prog, cfg, out, NoOpValidationHooks, true),
+        "ngdp" => stream_ops(prog, cfg, out, NgdpValidationHooks::default(), true),
+        _ => stream_ops(prog, cfg, out, NoOpValidationHooks, false),
+    }
+}
+
+// --------------------------------------------------------------------------- kind "str"
+fn default_hash(s: &str) -> u64 {
+    let mut h = std::collections::hash_map::DefaultHasher::new();
+    s.hash(&mut h);
+    h.finish()
+}
+fn run_str(prog: &Value, cfg: &Value, out: &Emit) {
+    let mut obj = StringInterner::new();
+    let hashes = EndpointHashes::new();
+    let mut alive: Vec<Arc<str>> = Vec::new(); // handles are kept so that an address is never reused within the run
+    let mut ids: HashMap<usize, usize> = HashMap::new();
+    begin_run(out, "str", cfg);
+    let mut seq = 0u64;
+    for op in ops_of(prog) {
+        let name = st(&op["op"]);
+        let mut ev = op.clone();
+        seq += 1;
+        ev["seq"] = json!(seq);
+        ev["res"] = call(out, op, || match name {
+            "intern" => {
+                let x = st(&op["x"]);
+                let a = if st(&op["api"]) == "obj" { obj.intern(x) } else { popt::intern_string(x) };
+                let addr = a.as_ptr() as usize;
+                let n = ids.len() + 1;
+                let id = *ids.entry(addr).or_insert(n);
+                let r = json!({"id": id, "s": &*a});
+                alive.push(a);
+                r
+            }
+            "key" => json!({"s": popt::format_cache_key(st(&op["p"]), st(&op["e"]))}),
+            "ehash" => {
+                let e = st(&op["e"]);
+                json!({"h": popt::endpoint_hash(e).to_string(), "h2": hashes.get_hash(e).to_string(), "h3": default_hash(e).to_string()})
+            }
+            other => panic!("driver: unknown str op {other}"),
+        });
+        out.ev(ev);
+    }
+}
+
+// --------------------------------------------------------------------------- kind "conc"
+struct Stamp(AtomicU64);
+impl Stamp {
+    fn tick(&self) -> u64 {
+        self.0.fetch_add(1, Ordering::SeqCst) + 1
+    }
+}
+fn jitter(rng: &mut Rng) {
+    match rng.below(4) {
+        0 => std::thread::yield_now(),
+        1 => {
+            for _ in 0..rng.below(200) {
+                std::hint::spin_loop();
+            }
+        }
+        _ => {}
+    }
+}
+fn snap_class(p: &NgdpMemoryPool, c: usize) -> Value {
+    let s = p.size_class_stats(CLASSES[c - 1]);
+    json!([small(s.allocations), small(s.reuses), small(s.pool_misses), small(s.pool_size as u64)])
+}
+const CSIZES: [usize; 2] = [100, 20000]; // Small, Medium
+fn conc_lin(cfg: &Value, out: &Emit) {
+    let threads = u(&cfg["threads"]) as usize;
+    let per = u(&cfg["per"]) as usize;
+    let seed = u(&cfg["seed"]);
+    let nclasses = cfg.get("classes").map(u).unwrap_or(1) as usize;
+    let pool = Arc::new(NgdpMemoryPool::new());
+    let stamp = Arc::new(Stamp(AtomicU64::new(0)));
+    let mut all: Vec<Value> = Vec::new();
+    // sequential prefix (thread 0): `pre` foreign buffers per class
+    let mut i0 = 0u64;
+    for c in 0..nclasses {
+        for _ in 0..u(&cfg["pre"]) {
+            let b = BytesMut::with_capacity(NgdpSizeClass::from_size(CSIZES[c]).buffer_size());
+            let cap = b.capacity();
+            let inv = stamp.tick();
+            pool.deallocate(b);
+            let ret = stamp.tick();
+            all.push(json!({"t": 0, "i": i0, "op": "free", "cap": cap, "inv": inv, "ret": ret, "panic": false}));
+            i0 += 1;
+        }
+    }
+    let bar = Arc::new(Barrier::new(threads));
+    let arrived = Arc::new(AtomicU64::new(0));
+    let mut hs = Vec::new();
+    for t in 1..=threads {
+        let (pool, stamp, bar, arrived) = (pool.clone(), stamp.clone(), bar.clone(), arrived.clone());
+        hs.push(std::thread::spawn(move || {
+            let mut rng = Rng::new(seed.wrapping_mul(1_000_003).wrapping_add(t as u64));
+            let mut held: Vec<BytesMut> = Vec::new();
+            let mut ops: Vec<Value> = Vec::new();
+            bar.wait();
+            for i in 0..per {
+                // rounds in lock step (spin barrier), then a seeded perturbation: the calls of one round start together
+                arrived.fetch_add(1, Ordering::SeqCst);
+                let t_spin = std::time::Instant::now();
+                while arrived.load(Ordering::SeqCst) < (threads * (i + 1)) as u64 && t_spin.elapsed() < Duration::from_millis(200) {
+                    std::hint::spin_loop();
+                }
+                for _ in 0..rng.below(60) {
+                    std::hint::spin_loop();
+                }
+                if rng.below(6) == 0 {
+                    jitter(&mut rng);
+                }
+                let k = rng.below(10);
+                if k < 4 || (k < 7 && held.is_empty()) {
+                    let n = CSIZES[rng.below(nclasses as u64) as usize];
+                    let inv = stamp.tick();
+                    let r = guarded(|| pool.allocate(n));
+                    let ret = stamp.tick();
+                    match r {
+                        Ok(mut b) => {
+                            ops.push(json!({"t": t, "i": i, "op": "alloc", "n": n, "cap": b.capacity(), "len": b.len(), "inv": inv, "ret": ret}));
+                            b.put_u8(t as u8);
+                            held.push(b);
+                        }
+                        Err(m) => ops.push(json!({"t": t, "i": i, "op": "alloc", "n": n, "panic": m, "inv": inv, "ret": ret})),
+                    }
+                } else if k < 7 {
+                    let b = held.swap_remove(rng.below(held.len() as u64) as usize);
+                    let (cap, d) = (b.capacity(), head8(&b));
+                    let inv = stamp.tick();
+                    let r = guarded(|| pool.deallocate(b));
+                    let ret = stamp.tick();
+                    ops.push(json!({"t": t, "i": i, "op": "free", "cap": cap, "d": d, "own": t, "inv": inv, "ret": ret, "panic": r.is_err()}));
+                } else {
+                    let c = 1 + rng.below(nclasses as u64) as usize;
+                    let inv = stamp.tick();
+                    let s = guarded(|| snap_class(&pool, c));
+                    let ret = stamp.tick();
+                    ops.push(json!({"t": t, "i": i, "op": "snap", "c": c, "st": s.unwrap_or(json!([-2, -2, -2, -2])), "inv": inv, "ret": ret}));
+                }
+            }
+            ops
+        }));
+    }
+    for h in hs {
+        all.extend(h.join().expect("driver: conc thread"));
+    }
+    // quiescent suffix (thread 0): a snapshot per class, then drain: pool_size + 1 allocations, each followed by a snapshot
+    let mut i = 100u64;
+    for c in 1..=nclasses {
+        let inv = stamp.tick();
+        let s = snap_class(&pool, c);
+        let ret = stamp.tick();
+        let idle = s[3].as_u64().unwrap_or(0);
+        all.push(json!({"t": 0, "i": i, "op": "snap", "c": c, "st": s, "inv": inv, "ret": ret}));
+        i += 1;
+        for _ in 0..=idle {
+            let inv = stamp.tick();
+            let b = pool.allocate(CSIZES[c - 1]);
+            let ret = stamp.tick();
+            all.push(json!({"t": 0, "i": i, "op": "alloc", "n": CSIZES[c - 1], "cap": b.capacity(), "len": b.len(), "inv": inv, "ret": ret}));
+            i += 1;
+            drop(b); // not returned to the pool
+            let inv = stamp.tick();
+            let s = snap_class(&pool, c);
+            let ret = stamp.tick();
+            all.push(json!({"t": 0, "i": i, "op": "snap", "c": c, "st": s, "inv": inv, "ret": ret}));
+            i += 1;
+        }
+    }
+    out.ev(json!({"op": "crun", "target": "ngdp", "threads": threads, "cfg": cfg, "ops": all}));
+}
+fn conc_hammer(cfg: &Value, out: &Emit) {
+    let threads = u(&cfg["threads"]) as usize;
+    let per = u(&cfg["per"]) as usize;
+    let seed = u(&cfg["seed"]);
+    let target = st(&cfg["target"]).to_string();
+    let ngdp = Arc::new(NgdpMemoryPool::new());
+    let sized = Arc::new(SizedMemoryPool::new());
+    // content types used on the sized pool: one per size class so that the class of a request names its type
+    const HT: [(usize, &str, usize); 2] = [(0, "config", 100), (5, "download", 20000)];
+    let bar = Arc::new(Barrier::new(threads));
+    let mut hs = Vec::new();
+    for t in 1..=threads {
+        let (ngdp, sized, bar, target) = (ngdp.clone(), sized.clone(), bar.clone(), target.clone());
+        hs.push(std::thread::spawn(move || {
+            let mut rng = Rng::new(seed.wrapping_mul(7_000_003).wrapping_add(t as u64));
+            let mut held: Vec<(BytesMut, usize)> = Vec::new();
+            let mut tagc = 0usize;
+            // alloc: [t, 0, class, n, cap, len] (2 = panicked); free: [t, 1, class, cap, byte0, byte1, tag] (3 = panicked)
+            let mut ops: Vec<Value> = Vec::new();
+            let lrt = rt();
+            bar.wait();
+            for _ in 0..per {
+                if rng.below(8) == 0 {
+                    jitter(&mut rng);
+                }
+                if held.len() < 6 && (held.is_empty() || rng.below(2) == 0) {
+                    let ci = rng.below(2) as usize;
+                    let n = HT[ci].2 + rng.below(50) as usize;
+                    let r = if target == "ngdp" {
+                        guarded(|| ngdp.allocate(n))
+                    } else {
+                        guarded(|| lrt.block_on(sized.allocate_for_type(ctype(HT[ci].1), n)).expect("driver: allocate_for_type"))
+                    };
+                    match r {
+                        Ok(mut b) => {
+                            ops.push(json!([t, 0, ci + 1, n, b.capacity(), b.len()]));
+                            tagc = tagc % 250 + 1;
+                            b.put_u8(t as u8);
+                            b.put_u8(tagc as u8);
+                            held.push((b, tagc));
+                        }
+                        Err(_) => ops.push(json!([t, 2, ci + 1, n, 0, 0])),
+                    }
+                } else {
+                    let (b, tag) = held.swap_remove(rng.below(held.len() as u64) as usize);
+                    let cap = b.capacity();
+                    let (b0, b1) = (b.first().copied().unwrap_or(0), b.get(1).copied().unwrap_or(0));
+                    let ci = if cap <= 16384 { 1 } else { 2 };
+                    let r = if target == "ngdp" {
+                        guarded(|| ngdp.deallocate(b))
+                    } else {
+                        guarded(|| lrt.block_on(sized.deallocate(b)).expect("driver: deallocate"))
+                    };
+                    ops.push(json!([t, if r.is_ok() { 1 } else { 3 }, ci, cap, b0, b1, tag]));
+                }
+            }
+            // buffers still held are dropped, not returned
+            ops
+        }));
+    }
+    let mut all: Vec<Value> = Vec::new();
+    for h in hs {
+        all.extend(h.join().expect("driver: hammer thread"));
+    }
+    let mut ev = json!({"op": "hammer", "target": target, "threads": threads, "cfg": cfg, "ops": all});
+    if target == "ngdp" {
+        let (s, t) = ngdp_books(&ngdp);
+        ev["st"] = s.clone();
+        ev["tot"] = t;
+        // drain: per class pool_size + 1 allocations; each answers [reuses, misses, pool_size] afterwards
+        let mut drain = Vec::new();
+        for c in 1..=2usize {
+            let idle = s[c - 1][4].as_u64().unwrap_or(0);
+            let mut l = Vec::new();
+            for _ in 0..=idle {
+                drop(ngdp.allocate(HT[c - 1].2)); // not returned to the pool
+                let x = ngdp.size_class_stats(CLASSES[c - 1]);
+                l.push(json!([small(x.reuses), small(x.pool_misses), small(x.pool_size as u64)]));
+            }
+            drain.push(Value::Array(l));
+        }
+        ev["drain"] = Value::Array(drain);
+    } else {
+        let r = rt();
+        let (s, t) = sized_books(&r, &sized);
+        ev["st"] = s;
+        ev["tot"] = t;
+    }
+    out.ev(ev);
+}
+fn conc_intern(cfg: &Value, out: &Emit) {
+    let threads = u(&cfg["threads"]) as usize;
+    let per = u(&cfg["per"]) as usize;
+    let seed = u(&cfg["seed"]);
+    let words: Vec<String> = (0..6).map(|i| format!("x06-{seed}-{}", i % 5)).collect(); // two equal texts from different Strings
+    let bar = Arc::new(Barrier::new(threads));
+    let mut hs = Vec::new();
+    for t in 1..=threads {
+        let (bar, words) = (bar.clone(), words.clone());
+        hs.push(std::thread::spawn(move || {
+            let mut rng = Rng::new(seed.wrapping_mul(31).wrapping_add(t as u64));
+            let mut got: Vec<(String, Arc<str>)> = Vec::new();
+            bar.wait();
+            for _ in 0..per {
+                jitter(&mut rng);
+                let w = rng.pick(&words).clone();
+                let a = popt::intern_string(&w);
+                got.push((w, a));
+            }
+            got
+        }));
+    }
+    let mut all = Vec::new();
+    let mut keep = Vec::new();
+    for (t, h) in hs.into_iter().enumerate() {
+        for (w, a) in h.join().expect("driver: intern thread") {
+            all.push(json!([t + 1, w, &*a, (a.as_ptr() as usize).to_string()]));
+            keep.push(a);
+        }
+    }
+    out.ev(json!({"op": "cintern", "threads": threads, "cfg": cfg, "ops": all}));
+}
+fn run_conc(_prog: &Value, cfg: &Value, out: &Emit) {
+    out.begin(&json!({"op": "conc", "cfg": cfg}));
+    match (st(&cfg["target"]), st(&cfg["mode"])) {
+        ("intern", _) => conc_intern(cfg, out),
+        (_, "lin") => conc_lin(cfg, out),
+        _ => conc_hammer(cfg, out),
+    }
+}
+
+// --------------------------------------------------------------------------- kind "bg"
+fn bg_task(op: &Value) -> OptimizationTask {
+    let t = ctype(op.get("t").map(st).unwrap_or("config"));
+    match st(&op["task"]) {
+        "monitor" => OptimizationTask::MonitorUsage { content_type: t, interval: Duration::from_millis(u(&op["ms"])) },
+        "tune" => OptimizationTask::TunePoolSize { content_type: t, target_reuse_rate: 0.7, max_adjustment: 0.3 },
+        "defrag" => OptimizationTask::DefragmentPool { content_type: t, fragmentation_threshold: 0.5 },
+        "warm" => OptimizationTask::WarmUpPools { predictions: vec![(t, u(&op["n"]) as usize)] },
+        "press" => OptimizationTask::MemoryPressureCheck { pressure_threshold: 0.0, response: bg_resp(st(&op["resp"])) },
+        "cleanup" => OptimizationTask::CleanupUnused { max_age: Duration::from_secs(600), min_pool_size: 1 },
+        other => panic!("driver: unknown task {other}"),
+    }
+}
+fn bg_resp(r: &str) -> PressureResponse {
+    match r {
+        "log" => PressureResponse::LogWarning,
+        "clear" => PressureResponse::ClearSmallPools,
+        "reduce" => PressureResponse::ReducePools(50),
+        "emergency" => PressureResponse::EmergencyMode,
+        other => panic!("driver: unknown response {other}"),
+    }
+}
+fn run_bg(prog: &Value, cfg: &Value, out: &Emit) {
+    let rt = tokio::runtime::Builder::new_current_thread().enable_time().start_paused(true).build().expect("paused runtime");
+    begin_run(out, "bg", cfg);
+    let r = guarded(|| rt.block_on(async {
+        let pool = Arc::new(SizedMemoryPool::new());
+        let bc = BackgroundConfig {
+            pattern_monitoring_interval: Duration::from_millis(u(&cfg["mon"])),
+            pressure_check_interval: Duration::from_millis(u(&cfg["press"])),
+            cleanup_interval: Duration::from_millis(u(&cfg["clean"])),
+            enable_auto_warmup: cfg["warmup"].as_bool().unwrap_or(true),
+            ..BackgroundConfig::default()
+        };
+        let mut mgr = BackgroundMemoryManager::with_config(pool.clone(), bc).expect("driver: manager");
+        let t0 = tokio::time::Instant::now();
+        let mut seq = 0u64;
+        for op in ops_of(prog) {
+            let name = st(&op["op"]);
+            let mut ev = op.clone();
+            seq += 1;
+            ev["seq"] = json!(seq);
+            out.begin(op);
+            let before = tokio::time::Instant::now();
+            // (no catch_unwind across an await: a panic here ends the program and is reported as a dead worker)
+            let res = match name {
+                "start" => match mgr.start_optimization() {
+                    Ok(()) => json!({"ok": true}),
+                    Err(e) => json!({"err": e.to_string()}),
+                },
+                "shutdown" => match mgr.shutdown().await {
+                    Ok(()) => json!({"ok": true}),
+                    Err(e) => json!({"err": e.to_string()}),
+                },
+                "submit" => match mgr.submit_task(bg_task(op)) {
+                    Ok(()) => json!({"ok": true}),
+                    Err(e) => json!({"err": e.to_string()}),
+                },
+                "tune" => match mgr.trigger_tuning() {
+                    Ok(()) => json!({"ok": true}),
+                    Err(e) => json!({"err": e.to_string()}),
+                },
+                "press" => match mgr.trigger_pressure_response(bg_resp(st(&op["resp"]))) {
+                    Ok(()) => json!({"ok": true}),
+                    Err(e) => json!({"err": e.to_string()}),
+                },
+                "adv" => {
+                    tokio::time::sleep(Duration::from_millis(u(&op["ms"]))).await;
+                    json!({"ok": true})
+                }
+                "alloc" => {
+                    let t = ctype(st(&op["t"]));
+                    let b = pool.allocate_for_type(t, 100).await.expect("driver: allocate_for_type");
+                    pool.deallocate(b).await.expect("driver: deallocate");
+                    json!({"ok": true})
+                }
+                other => panic!("driver: unknown bg op {other}"),
+            };
+            // let the worker run as far as it can without time passing
+            for _ in 0..64 {
+                tokio::task::yield_now().await;
+            }
+            ev["res"] = res;
+            ev["dt"] = json!(before.elapsed().as_millis() as u64);
+            ev["now"] = json!(t0.elapsed().as_millis() as u64);
+            ev["run"] = json!(mgr.is_running());
+            let bs = mgr.get_background_stats().expect("driver: background stats");
+            ev["te"] = json!(bs.tasks_executed);
+            let pats = mgr.get_usage_patterns().expect("driver: usage patterns");
+            ev["samples"] = Value::Array(CTYPES.iter().map(|(_, t)| json!(pats.get(t).map(|p| p.recent_sizes.len()).unwrap_or(0))).collect());
+            let s = pool.get_stats().await.expect("driver: get_stats");
+            ev["allocs"] = json!(s.total_allocations());
+            out.ev(ev);
+        }
+        drop(mgr);
+    }));
+    if let Err(m) = r {
+        out.ev(json!({"op": "bgpanic", "seq": 0, "res": outcome_panic(&m)}));
+    }
+}
+
+// --------------------------------------------------------------------------- main
+fn run_program(prog: &Value, out: &Emit) {
+    let cfg = prog["cfg"].clone();
+    match prog["kind"].as_str().unwrap_or("?") {
+        "ngdp" => run_ngdp(prog, &cfg, out),
+        "tl" => run_tl(prog, &cfg, out),
+        "bbp" => run_bbp(prog, &cfg, out),
+        "zcp" => run_zcp(prog, &cfg, out),
+        "sized" => run_sized(prog, &cfg, out),
+        "zc" => run_zc(prog, &cfg, out),
+        "zcc" => run_zcc(prog, &cfg, out),
+        "stream" => run_stream(prog, &cfg, out),
+        "str" => run_str(prog, &cfg, out),
+        "conc" => run_conc(prog, &cfg, out),
+        "bg" => run_bg(prog, &cfg, out),
+        other => panic!("driver: unknown program kind {other}"),
+    }
+}
+
+fn main() {
+    quiet_panics();
+    let args: Vec<String> = std::env::args().collect();
+    let mut out = Out::from_arg(arg(&args, "--out").as_ref());
+    let programs = read_programs(&arg(&args, "--programs").expect("--programs"));
+    let st = run_with_watchdog(programs, &mut out, Duration::from_secs(20), run_program);
+    out.flush();
+    eprintln!("{}", json!({"programs": st.programs, "events": out.events, "hangs": st.hangs, "skipped": st.skipped}));
+    if st.skipped > 0 {
+        std::process::exit(3);
+    }
 }
